@@ -218,6 +218,25 @@ func registerGhostBuiltins() {
 		}
 		return []LocSet{ls}
 	}
+	ghostLocs["boxedslice"] = func(env *SpecEnv, n ECall, src string) []LocSet {
+		// boxedslice(v): the elements of the slice boxed in the interface value v, whatever its
+		// element type (one location set per basic element type; the reference is -1 for the types
+		// that do not match the dynamic type of v)
+		v := env.eval(n.Args[0])
+		x := env.x
+		var out []LocSet
+		for _, k := range []types.BasicKind{types.Bool, types.Int, types.Int8, types.Int16, types.Int32, types.Int64, types.Uint, types.Uint8,
+			types.Uint16, types.Uint32, types.Uint64, types.Float32, types.Float64} {
+			et := types.Typ[k]
+			stt := types.NewSlice(et)
+			sv := x.unbox(env.st, v, stt)
+			match := eq(v.tag(), x.typeTag(stt))
+			name := fmt.Sprintf("E$%s$0", typeKey(et))
+			x.comp(env.st, name, elemSort(layout(et)[0].Sort))
+			out = append(out, LocSet{Comps: []string{name}, Ref: ite(match, sv.base(), "(- 1)"), Lo: sv.off(), Hi: add(sv.off(), sv.slen()), Src: src})
+		}
+		return out
+	}
 	ghostLocs["cont"] = func(env *SpecEnv, n ECall, src string) []LocSet {
 		v := env.eval(n.Args[0])
 		ls := LocSet{Ref: tensorRef(v), Src: src}
